@@ -314,4 +314,22 @@ def Rpu.convertWithMode (r : Rpu) (mode : Mode) : Res Rpu :=
   | .to81MappingPreserved =>
     if r.dovi_profile == 7 || r.dovi_profile == 8 then done r.convertToP81 else .error
 
+/-- the state a *failed* `convert_with_mode` leaves in the value (the Rust function mutates before it bails):
+`modified` is set for every mode but Lossless; a failure inside `convert_to_mel` (no NLQ on a value still classed
+profile 7) has already set the two header flags and the three NLQ fields of the mapping -/
+def Rpu.afterFailedConvert (r : Rpu) (mode : Mode) : Rpu :=
+  let r := if mode != .lossless then { r with modified := true } else r
+  match mode with
+  | .toMel =>
+    if r.dovi_profile == 7 || r.dovi_profile == 8 then
+      { r with header := { r.header with el_spatial_resampling_filter_flag := true, disable_residual_flag := false },
+               rpu_data_mapping := r.rpu_data_mapping.map fun m =>
+                 { m with nlq_method_idc := some 0, nlq_num_pivots_minus2 := some 0,
+                          nlq_pred_pivot_value := some [0, 1023] } }
+    else r
+  | _ => r
+
+/-- after a failed `set_active_area_offsets` (the block is rejected): only `modified` is set -/
+def Rpu.afterFailedOffsets (r : Rpu) : Rpu := { r with modified := true }
+
 end Dovi
